@@ -38,6 +38,7 @@ def controlsModel (root : Str) (lists : List Str) (rows : List Cells) (settings 
     | .error (.unknownType n) => Json.mkObj [("outcome", "error"), ("err", Json.mkObj [("kind", "unknownType"), ("row", n)])]
     | .ok o =>
       if emptySecL o.items then errJson "emptySection" ""
+      else if omitWithKey settings then errJson "omitWithKey" "omit_instanceID with public_key"
       else
       Json.mkObj [("outcome", "ok"), ("instance", ntToJson o.inst), ("binds", pathsToJson o.binds),
         ("body", pathsToJson o.body),
